@@ -181,7 +181,20 @@ fn resolve(t: &TableDefinition, u: &TableDefinition, name: &str, self_join: bool
 pub struct Expected { pub records: Vec<String>, pub max_fanout: usize, pub null_keys: bool, pub padded: usize }
 
 /// expected records of `SELECT refs… AS c0…` (or `*` when `refs` is None) over the join, by the property sentence
+/// join keys are equal: the implementation's own `==`, or (numeric) an INT and a REAL of the same numeric value as well
+fn keys_equal(a: &Value, b: &Value, numeric: bool) -> bool {
+    if a == b { return true; }
+    if !numeric { return false; }
+    let exact = |i: i64, f: f64| -> bool { f.is_finite() && f.fract() == 0.0 && f >= -9223372036854775808.0 && f < 9223372036854775808.0 && (f as i128) == i as i128 };
+    match (a, b) { (Value::Int(i), Value::Float(f)) | (Value::Float(f), Value::Int(i)) => exact(*i, f.0), _ => false }
+}
+
 pub fn nested_loop(t: &TableDefinition, u: &TableDefinition, js: &JoinSpec, refs: Option<&[String]>, main: &[String], joined: &[String], self_join: bool) -> Option<Expected> {
+    nested_loop_eq(t, u, js, refs, main, joined, self_join, false)
+}
+
+/// `numeric`: an INT key and a REAL key of the same numeric value pair as well (C16: numbers compare by numeric value)
+pub fn nested_loop_eq(t: &TableDefinition, u: &TableDefinition, js: &JoinSpec, refs: Option<&[String]>, main: &[String], joined: &[String], self_join: bool, numeric: bool) -> Option<Expected> {
     let ti = t.index_for(&js.tcol)?;
     let ui = u.index_for(&js.ucol)?;
     let urows: Vec<Vec<Value>> = joined.iter().map(|l| u.extract(l)).filter(|r| r.any_result()).map(|r| r.columns).collect();
@@ -206,7 +219,7 @@ pub fn nested_loop(t: &TableDefinition, u: &TableDefinition, js: &JoinSpec, refs
         let mut partners: Vec<&Vec<Value>> = Vec::new();
         for s in &urows {
             if s[ui] == Value::Null { out.null_keys = true; continue; }
-            if *key != Value::Null && *key == s[ui] { partners.push(s); }
+            if *key != Value::Null && keys_equal(key, &s[ui], numeric) { partners.push(s); }
         }
         out.max_fanout = out.max_fanout.max(partners.len());
         let nulls = vec![Value::Null; u.columns.len()];
@@ -302,6 +315,10 @@ pub fn run(p: &Params) -> Run {
                 if exp.padded > 0 { run.count("outer-padded-rows"); }
                 if result.status != "ok" {
                     run.fail(desc.clone(), "join-run-failed", format!("a plain projection over the join answered {}", result.status));
+                } else if result.records() == exp.records && nested_loop_eq(&t, &u, &js, st.refs.as_deref(), &main, &joined, false, true).map(|n| n.records != exp.records).unwrap_or(false) {
+                    // the keys are an INT and a REAL column and some pair holds the same number: the join looks keys up by the
+                    // derived equality, which tells INT 3 from REAL 3.0 (finding D45, here seen through the join)
+                    run.fail(desc.clone(), "D45:join-int-real", "an INT key and a REAL key of the same numeric value are not paired (WHERE t.v = u.r holds for them)".to_owned());
                 } else if result.records() != exp.records {
                     let got = result.records();
                     let class = if got.len() > exp.records.len() { "join-extra-rows" } else if got.len() < exp.records.len() { "join-missing-rows" } else { "join-rows-differ" };
